@@ -37,3 +37,6 @@ LP/Agree.vos LP/Agree.vok LP/Agree.required_vos: LP/Agree.v LP/DriverSound.vos L
 Store/Spec.vo Store/Spec.glob Store/Spec.v.beautified Store/Spec.required_vo: Store/Spec.v LP/User.vo
 Store/Spec.vio: Store/Spec.v LP/User.vio
 Store/Spec.vos Store/Spec.vok Store/Spec.required_vos: Store/Spec.v LP/User.vos
+Store/SpecInv.vo Store/SpecInv.glob Store/SpecInv.v.beautified Store/SpecInv.required_vo: Store/SpecInv.v Store/Spec.vo
+Store/SpecInv.vio: Store/SpecInv.v Store/Spec.vio
+Store/SpecInv.vos Store/SpecInv.vok Store/SpecInv.required_vos: Store/SpecInv.v Store/Spec.vos
